@@ -55,6 +55,10 @@ func main() {
 		code := orch.Replay(os.Args[2])
 		orch.Cleanup()
 		os.Exit(code)
+	case "run-case":
+		code := orch.RunCaseFile(os.Args[2])
+		orch.Cleanup()
+		os.Exit(code)
 	case "selftest":
 		code := orch.SelfTest(os.Args[2:])
 		orch.Cleanup()
